@@ -433,6 +433,8 @@ class GraphExporter:
         nd = _deref(nd)
         nd["kidlist"] = kidlist
         nd["stored"] = any("ImplStored" in t for t in nd["meta"]["tags"])
+        nd["implother"] = any("ImplInlined" in t or "ImplSubstitution" in t
+                              for t in nd["meta"]["tags"])
         nd["loc"] = hashlib.sha256(loc.encode()).hexdigest()[:20]
         nd["kids"] = order
         nd["loc_nt"] = hashlib.sha256(loc_nt.encode()).hexdigest()[:20]
